@@ -1,0 +1,8 @@
+//go:build verif
+
+package config
+
+// Verification hooks (build tag verif).
+
+// VerifCleanTrace is cleanTrace.
+func VerifCleanTrace(allow, trace []string) ([]string, []string) { return cleanTrace(allow, trace) }
